@@ -19,6 +19,7 @@ func init() {
 		Trusted: []string{"go/types", "go/ssa"},
 		Run: func(c *Ctx) {
 			runC03(c)
+			base(c, "DECLARED", "STATE", "ALIAS", "TEXT")
 			importRules(c, "C02", runC02Loop, "C03-LOOP", "skipping a rule on an empty value continues with the next rule: every walker's rule loop leaves only through its header (rule C02-LOOP), so a required placed after another rule is still evaluated", 4, nil)
 			importRules(c, "C04", runC04, "C03-DESCENT", "an empty (zero) sub-object is never descended into, so its inner rules cannot produce an error for an optional field left empty (rule C04-GUARD)", 2, ruleIn("C04-GUARD"))
 		},
